@@ -355,3 +355,78 @@ func TestScenarios(t *testing.T) {
 		ev.Case(oc.switchedDuringReads, ev.Hash(sc.render(), fmt.Sprint(oc.readerIters)), sc.render)
 	})
 }
+
+// TestSwitchHammer concentrates on the one moment that happens once per filter: the Add that moves the filter from
+// the 256-entry list to the per-length maps. Many short trials, each with a fresh filter that is exactly full (with
+// removed slots in front, which makes the migration longer), readers looking up always-present addresses in a tight
+// loop, and one writer performing the crossing Add. A lookup of a range that is present for the whole trial must
+// never be false, before, during or after the switch.
+func TestSwitchHammer(t *testing.T) {
+	rt.Check(t, 1500, 120000, func(t *rapid.T) {
+		holes := rapid.SampledFrom([]int{0, 1, 16, 100, 200}).Draw(t, "removedSlotsInFront")
+		readers := rapid.IntRange(1, 6).Draw(t, "readers")
+		sixteen := rapid.Bool().Draw(t, "sixteenByte")
+		f := netutil.NewIPv4Filter()
+		var stable []prefix
+		for i := 0; i < 256; i++ {
+			p := prefix{10<<24 | uint32(i)<<8, 24}
+			if err := f.Add(ipnet(p)); err != nil {
+				t.Fatalf("Add: %v", err)
+			}
+			if i < holes {
+				f.Remove(ipnet(p))
+			} else {
+				stable = append(stable, p)
+			}
+		}
+		var stop atomic.Bool
+		var bad atomic.Pointer[string]
+		var lookups atomic.Int64
+		var rg sync.WaitGroup
+		startCh := make(chan struct{})
+		for r := 0; r < readers; r++ {
+			rg.Add(1)
+			go func(r int) {
+				defer rg.Done()
+				x := uint32(r*2654435761 + 12345)
+				<-startCh
+				for !stop.Load() {
+					x = x*1664525 + 1013904223
+					p := stable[int(x>>8)%len(stable)]
+					a := p.net | x&0xff
+					if !f.Contains(ip(a, sixteen && x&1 == 0)) {
+						m := fmt.Sprintf("Contains(%v) = false while the filter switched from list to maps, although %v/24 was present all along", ip(a, false), ip(p.net, false))
+						bad.CompareAndSwap(nil, &m)
+						return
+					}
+					lookups.Add(1)
+				}
+			}(r)
+		}
+		close(startCh)
+		for lookups.Load() < int64(readers) && bad.Load() == nil { // readers are up and running
+			runtimeGosched()
+		}
+		crossing := prefix{11 << 24, 8}
+		if err := f.Add(ipnet(crossing)); err != nil { // the 257th valid Add: the switch
+			t.Fatalf("Add: %v", err)
+		}
+		before := lookups.Load()
+		for lookups.Load() < before+int64(4*readers) && bad.Load() == nil {
+			runtimeGosched()
+		}
+		stop.Store(true)
+		rg.Wait()
+		if m := bad.Load(); m != nil {
+			t.Fatalf("%s (removed slots in front: %d, readers: %d)", *m, holes, readers)
+		}
+		if !f.Contains(ip(crossing.net|5, false)) {
+			t.Fatalf("the range added by the crossing Add is not contained afterwards")
+		}
+		ev.Label("switch_hammer")
+		ev.LabelN("switch_hammer_lookups", lookups.Load())
+		ev.Case(true, ev.Hash("hammer", fmt.Sprint(holes, readers, sixteen, lookups.Load())), func() string {
+			return fmt.Sprintf("switch hammer: %d removed slots in front, %d readers, %d lookups around the crossing Add", holes, readers, lookups.Load())
+		})
+	})
+}
